@@ -1,3 +1,4 @@
+#![allow(unexpected_cfgs)]
 pub mod admin;
 pub mod auth_passthrough;
 pub mod client;
